@@ -3,7 +3,7 @@
    [bcast] the join, [bcast_impl] the name / save / recode / join / decode / restore sequence of the implementation.
    Only statements, `exact`, Print Assumptions. *)
 From Coq Require Import ZArith List Bool.
-From PL Require Import Core.Broadcast Core.BroadcastThm Core.BroadcastImpl.
+From PL Require Import Core.Broadcast Core.BroadcastThm Core.BroadcastImpl Core.BroadcastRecode.
 Import ListNotations.
 Open Scope Z_scope.
 
@@ -75,6 +75,40 @@ Theorem operands_left_recoded_on_exception :
     map fst (rows (fst (r_coded (bcast_impl s)))) <> map fst (urows (st_obj s)).
 Proof. exact BroadcastImpl.operands_left_recoded_on_exception. Qed.
 
+(* the positional re-coding (_IndexLevelCache): decoding undoes encoding on every value of a level table, one table per
+   level name holds the values of BOTH operands ... *)
+Theorem decode_encode tbl n x : In x (tbl n) -> decode tbl n (encode tbl n x) = x.
+Proof. exact (BroadcastImpl.decode_encode tbl n x). Qed.
+Theorem table_complete (V : Type) lo lp (ro rp : list (key * V)) n :
+  (forall a, In a ro -> In n lo -> In (get n lo (fst a)) (table lo lp ro rp n)) /\
+  (forall b, In b rp -> In n lp -> In (get n lp (fst b)) (table lo lp ro rp n)) /\
+  NoDup (table lo lp ro rp n).
+Proof. exact (BroadcastImpl.table_complete V lo lp ro rp n). Qed.
+
+(* ... so that name / recode / join on the codes / decode returns exactly the join of the operands themselves,
+   for every layout -- unless the coded indices coincide (restricted statement; the full one is refuted below) *)
+Theorem recode_transparent (V : Type) (s : state V) :
+  let r := bcast_impl s in
+  let o := Frame (fst (r_named r)) (urows (st_obj s)) in
+  let p := Frame (snd (r_named r)) (urows (st_prm s)) in
+  wf V o -> wf V p ->
+  coincide (fst (r_coded r)) (snd (r_coded r)) = false ->
+  r_result r = bcast o p.
+Proof. exact (BroadcastRecode.recode_transparent V s). Qed.
+
+(* the property, of what the implementation-level model returns *)
+Theorem impl_rows_carry_restricted_value (V : Type) (s : state V) R :
+  let r := bcast_impl s in
+  let o := Frame (fst (r_named r)) (urows (st_obj s)) in
+  let p := Frame (snd (r_named r)) (urows (st_prm s)) in
+  wf V o -> wf V p ->
+  coincide (fst (r_coded r)) (snd (r_coded r)) = false ->
+  r_result r = Rows R ->
+  forall t, In t R ->
+    aobj t = lookup (proj (total (lv o) (lv p)) (akey t) (lv o)) (rows o) /\
+    aprm t = lookup (proj (total (lv o) (lv p)) (akey t) (lv p)) (rows p).
+Proof. exact (BroadcastRecode.impl_rows_carry_restricted_value V s R). Qed.
+
 (* the re-coding is not transparent when the coded indices coincide (known finding coincident-codes) *)
 Theorem recode_transparent_refuted :
   exists s : state Z,
@@ -97,4 +131,8 @@ Print Assumptions contained_defined_refuted.
 Print Assumptions operands_restored.
 Print Assumptions exception_iff.
 Print Assumptions operands_left_recoded_on_exception.
+Print Assumptions decode_encode.
+Print Assumptions table_complete.
+Print Assumptions recode_transparent.
+Print Assumptions impl_rows_carry_restricted_value.
 Print Assumptions recode_transparent_refuted.
